@@ -87,21 +87,24 @@ def observe_case(spec):
         base = {'n': len(text), 'M': M, 'NL': L.nl_offsets(data), 'a': 0, 'text': json.dumps(text)}
         # ---- basic: Lark.lex
         toks, err, ecls, eline, ecol = [], -1, '', 0, 0
+        allowed = []
         try:
             with O.budget(20):
                 for t in p.lex(data):
                     toks.append(L.tok_row(idx, t, data))
         except UnexpectedCharacters as e:
             err, ecls, eline, ecol = e.pos_in_stream, 'UnexpectedCharacters', e.line, e.column
+            allowed = sorted(idx[n] for n in (e.allowed or ()) if n in idx)
         except Exception as e:
             err, ecls = -3, type(e).__name__
         r = dict(base)
-        r.update({'mode': 'basic', 'toks': toks, 'among': [allidx] * (len(toks) + 1), 'err': err, 'ecls': ecls,
+        r.update({'mode': 'basic', 'toks': toks, 'among': [allidx] * (len(toks) + 1), 'allowed': allowed, 'err': err, 'ecls': ecls,
                   'eline': eline, 'ecol': ecol, 'basicacc': False, 'ctxacc': False, 'same': False, 'overlap': False})
         case['runs'].append(r)
         # ---- contextual: the real lexer driven by the real parser state
         if pc is not None:
             toks, amongs, err, ecls, eline, ecol = [], [], -1, '', 0, 0
+            allowed = []
             try:
                 ip = pc.parse_interactive(data)
                 gen = ip.lexer_thread.lex(ip.parser_state)
@@ -120,12 +123,13 @@ def observe_case(spec):
                         break
             except UnexpectedCharacters as e:
                 err, ecls, eline, ecol = e.pos_in_stream, 'UnexpectedCharacters', e.line, e.column
+                allowed = sorted(idx[n] for n in (e.allowed or ()) if n in idx)
             except UnexpectedToken as e:
                 err, ecls, eline, ecol = e.pos_in_stream, 'UnexpectedToken', e.line, e.column
             except Exception as e:
                 err, ecls = -3, type(e).__name__
             r = dict(base)
-            r.update({'mode': 'ctx', 'toks': toks, 'among': amongs, 'err': err, 'ecls': ecls, 'eline': eline, 'ecol': ecol,
+            r.update({'mode': 'ctx', 'toks': toks, 'among': amongs, 'allowed': allowed, 'err': err, 'ecls': ecls, 'eline': eline, 'ecol': ecol,
                       'basicacc': False, 'ctxacc': False, 'same': False, 'overlap': False})
             case['runs'].append(r)
             ob = O.parse_outcome(pb, data, positions=True)
